@@ -305,6 +305,19 @@ class GenerateWasmVisitor(Visitor.DefaultVisitor):
             for instruction in basicBlock.Instructions:
                 self.v_Visit(instruction, ctx)
 
+        # A function with a result must not fall off its end (there would be
+        # nothing on the stack for the implicit return)
+        if functionType.Results and not (
+            function.BasicBlocks
+            and function.BasicBlocks[-1].Instructions
+            and function.BasicBlocks[-1].Instructions[-1].OpCode
+            == LinearIR.OpCode.RETURN
+        ):
+            raise Exception(
+                f"Unsupported function: '{function.Name}' can end without "
+                "returning a value"
+            )
+
         ctx.OnLeaveFunction()
 
 
